@@ -51,7 +51,7 @@ def generate(rng, tier):
         if r < 0.3:
             keys['k%d' % i] = {'foreign': True, 'alg': rng.choice(['ed25519', 'ed25519', 'p256', 'p384', 'rsa2048', 'dsa2048']),
                                'usage_octet': rng.choice([254, 254, 255]), 's2k': rng.choice([3, 3, 1, 0]),
-                               'cipher': rng.choice([7, 9, 3, 2, 8]), 'hash': rng.choice([8, 2, 10]), 'count': rng.choice([0, 16, 96]),
+                               'cipher': rng.choice([7, 9, 3, 2, 8, 4, 11, 12, 13]), 'hash': rng.choice([8, 2, 10]), 'count': rng.choice([0, 16, 96]),
                                'shape': rng.choice(['plain', 'plain', 'gnu_dummy', 'mixed']), 'pass': rng.choice(PASSES)}
         else:
             alg = rng.choice(['ed25519', 'ed25519', 'p256', 'p384', 'p521', 'secp256k1']) if rng.random() > 0.15 else \
@@ -70,7 +70,7 @@ def generate(rng, tier):
         r = rng.random()
         if r < 0.22:
             steps.append({'id': sid, 'op': 'protect', 'key': k, 'pass': rng.choice(PASSES), 'as_bytes': rng.random() < 0.1,
-                          'cipher': rng.choice([7, 8, 9, 3, 2, 4, 11, 13]), 'hash': rng.choice([8, 10, 2, 9, 11, 3, 1])})
+                          'cipher': rng.choice([7, 8, 9, 3, 2, 4, 11, 12, 13]), 'hash': rng.choice([8, 10, 2, 9, 11, 3, 1])})
         elif r < 0.72:
             inner = [rng.choice(INNER) for _ in range(rng.choice([1, 1, 2, 3, 4]))]
             ex = rng.random()
